@@ -312,4 +312,22 @@ PROPS['C17']['explanation'] = PROPS['C17']['explanation'].replace('Partial, name
     'C17_oracle_reads_urls_as_specified (Proofs/OciReadP.v, closed): the executable URL decomposition `readings` with which check_oci judges the REAL example finds, for every valid UTF-8 URL, exactly the declarative shapes url_shape '
     '(split/join at "/", the optional trailing "/", keyword tails, name grammar => ASCII => valid UTF-8, tokens cut at ASCII delimiters stay valid) - so the oracle and the theorem about the model routers speak of the same specification. Partial, named: (')
 
+# the index-level search model (Model/SearchC.v) on the real tree is a correspondence channel wherever the functional one is
+for _k, _v in PROPS.items():
+    for _lst in ('primary', 'secondary'):
+        if 'OpsSearch' in _v[_lst] and 'IndexSearch' not in _v['primary'] + _v['secondary']:
+            _v['secondary'] = _v['secondary'] + ['IndexSearch']
+if 'IndexSearch' not in PROPS['C07']['secondary']:
+    PROPS['C07']['secondary'] = PROPS['C07']['secondary'] + ['IndexSearch']
+PROPS['C07']['explanation'] += (' THE SEARCH AT INDEX LEVEL (Model/SearchC.v, Proofs/SearchCP.v, closed): the search is modelled a second time in checked style - every `path[consumed]`, `&path[..consumed]`, '
+    '`&path[consumed..]`, `&path[prefix.len()..]`, the `position`-based segment end and the `constraints.get(name).unwrap()` are explicit operations that can return Panic, the six grow-the-capture loops run on fuel - '
+    'and C07_index_level_search_is_the_search proves that on every tree whose constraint names are registered and whose catch-all children carry data it returns exactly the answer of the functional search '
+    '(grow_spec: the cursor loop = the fold of pick over the candidate enumeration, for the inline, the boundary-filtered and the stop-at-slash variants; dyn_segment_spec; the catch-all and literal cases); '
+    'C07_search_never_panics: hence for every history and every path no index, slice or unwrap is out of range and the fuel suffices. Tie: the checker evaluates this model too on every real tree and query (IndexSearch). '
+    'Remaining partial: the index arithmetic of insert_static / find_static / delete_static (prefix[0], slices at the common prefix) and the Display/Debug code are covered by correspondence under catch_unwind only.')
+PROPS['C17']['explanation'] = PROPS['C17']['explanation'].replace(', and that the `regex` crate decides name_ok (OciName: the compiled regex vs name_ok on every string of length <= 6 over a 0 . _ - / A).',
+    '. THE NAME PATTERN (Spec/Regex.v, Proofs/OciRegexP.v, closed): C17_name_pattern_is_the_name_grammar - the regular expression text REGENERATED from examples/oci/src/constraints/name.rs, parsed by a small regex parser '
+    'written in Coq and read with the standard denotation of regular expressions, denotes exactly name_ok, for every byte string (regex -> state machine by running the machine over alnum runs and separators; '
+    'state machine -> regex by an invariant per machine state). What remains trusted there: that the `regex` crate implements that standard denotation (OciName: the compiled regex vs name_ok on every string of length <= 6 over a 0 . _ - / A).')
+
 NOT_APPLICABLE = {}
